@@ -201,7 +201,7 @@ def rule_T1(ctx, prog, label, rule='T1'):
                     other = p2.kids[1] if any(x is p for x in p2.kids[0].walk()) else p2.kids[0]
                     o = strip(other, casts=True)
                     if int_value(o) == 1 or (o.kind == 'DeclRefExpr' and o.ref == 'm4ri_one'):
-                        w = int_value(widx)
+                        w = widx if isinstance(widx, int) else int_value(widx)
                         if w is None:
                             bad(sub_node, 'bit read from a word with a non-constant index `%s`' % pp(sub_node)[:60], 'wordidx')
                             return
@@ -248,6 +248,12 @@ def rule_T1(ctx, prog, label, rule='T1'):
                 top, p = up(n)
                 if p is not None and p.kind == 'ArraySubscriptExpr' and any(x is n for x in p.kids[0].walk()):
                     bit_of_word(n, p, rowalias[n.refid][0], p.kids[1])
+                elif p is not None and p.kind == 'UnaryOperator' and p.op == '*':
+                    bit_of_word(n, p, rowalias[n.refid][0], 0)                     # *row  is  row[0]
+                elif p is not None and p.kind == 'BinaryOperator' and p.op == '+' and par.get(up(p)[0].uid) is not None and \
+                        up(p)[1] is not None and up(p)[1].kind == 'UnaryOperator' and up(p)[1].op == '*':
+                    other = p.kids[1] if any(x is n for x in p.kids[0].walk()) else p.kids[0]
+                    bit_of_word(n, up(p)[1], rowalias[n.refid][0], other)            # *(row + c)  is  row[c]
                 else:
                     bad(n, 'row pointer `%s` escapes into `%s`' % (n.ref, pp(p)[:60] if p is not None else '?'), 'rowptr')
                 continue
@@ -304,6 +310,13 @@ def rule_T1(ctx, prog, label, rule='T1'):
                     top2, p2 = up(p)
                     if p2 is not None and p2.kind == 'ArraySubscriptExpr':
                         bit_of_word(p, p2, a[1], p2.kids[1])
+                        continue
+                    if p2 is not None and p2.kind == 'UnaryOperator' and p2.op == '*':
+                        bit_of_word(p, p2, a[1], 0)
+                        continue
+                    if p2 is not None and p2.kind == 'BinaryOperator' and p2.op == '+' and up(p2)[1] is not None and up(p2)[1].kind == 'UnaryOperator' and up(p2)[1].op == '*':
+                        other = p2.kids[1] if any(x is p for x in p2.kids[0].walk()) else p2.kids[0]
+                        bit_of_word(p, up(p2)[1], a[1], other)
                         continue
                     if p2 is not None and p2.kind in ('VarDecl', 'BinaryOperator'):
                         # recorded as a row alias (checked at its uses) - otherwise unknown
